@@ -188,6 +188,8 @@ type rig struct {
 	// what the source directory held: every content (md5) each name ever had, the content
 	// expected to arrive in the end, names the harness changed during the run
 	versions    map[string][]string
+	wantBytes   map[string]string // C13: content of (unchanging) source files; parts handed to the gate keeper are compared with it
+	byteViol    string
 	expect      map[string]string
 	lastContent map[string]string
 	changed     map[string]bool
@@ -411,7 +413,21 @@ func (g *gkWrap) Receive(file *sts.Partial, reader io.Reader) error {
 		}
 		reader = bytes.NewReader(b)
 	}
+	var got bytes.Buffer
+	if r.wantBytes != nil {
+		reader = io.TeeReader(reader, &got)
+	}
 	err := g.GateKeeper.Receive(file, reader)
+	if want, ok := r.wantBytes[file.Name]; ok && err == nil && fault == "" {
+		// C13: each part carries exactly its bytes and never a byte of its neighbour
+		if p.End > int64(len(want)) || got.String() != want[p.Beg:p.End] {
+			r.mu.Lock()
+			if r.byteViol == "" {
+				r.byteViol = fmt.Sprintf("part %s was decoded as %q, the sender encoded %q", k, clip(got.String()), clip(safeStr(want, p.Beg, p.End)))
+			}
+			r.mu.Unlock()
+		}
+	}
 	if err == nil {
 		r.mu.Lock()
 		// attribute to the data request in flight that carries this part
@@ -1159,3 +1175,20 @@ func (r *rig) traceString() string {
 }
 
 var _ = client.Conf{}
+
+func clip(s string) string {
+	if len(s) > 48 {
+		return s[:48] + "..."
+	}
+	return s
+}
+
+func safeStr(s string, beg, end int64) string {
+	if beg > int64(len(s)) {
+		beg = int64(len(s))
+	}
+	if end > int64(len(s)) {
+		end = int64(len(s))
+	}
+	return s[beg:end]
+}
